@@ -6,16 +6,20 @@ import random
 
 ID = "C07"
 LEVEL = "exploration"
-TECHNIQUE = "runtime monitoring on a virtual-time simulated network: scripted raw notifier (Observe values around 2^23 / 2^24 wrap, inter-arrival gaps around 128 s, CON/NON, duplicates, all permutations of up to 5 notifications, back-to-back deliveries in one loop iteration, a terminating response or transport error at every position); oracle = reference implementation of the section 3.4 predicate over (Observe value, virtual arrival time) applied to the recorded callback / iteration history, plus wire reactions after the end"
-LEVEL_TEXT = "All permutations of notification sequences up to length 5 over boundary Observe values and arrival gaps (exhaustive per value set) and sampled longer ones are delivered to the real client through both consumer interfaces and both request paths; the delivered sequence, the terminal signal and the reactions after the end are judged against the reference predicate."
-LEVEL_NOTE = "Trusted: the freshness predicate and the judge in checks/c07.py, harness/vloop.py (time.time is virtual), simnet, refcodec. Exact delivery of every fresh notification is not demanded (the iterator is lossy by design); only subsequence + freshness + 'nothing fresher left undelivered'."
+TECHNIQUE = "runtime monitoring on a virtual-time simulated network: scripted raw notifier (Observe values around 2^23 / 2^24 wrap, inter-arrival gaps around 128 s, CON/NON, duplicates, all permutations of up to 5 notifications, back-to-back deliveries in one loop iteration, a terminating response or transport error at every position; block-wise representations: block 0 of every version pushed with the Observe option, the later blocks fetched by the client and answered from the version current at that moment with an ETag per version, versions replaced at offsets of 0 to 5 ms into a transfer, pushes delayed and repeated by the network; the application cancelling the observation before the first response, while its blocks are fetched, right after it, between and inside deliveries); oracle = reference implementation of the section 3.4 predicate over (Observe value, virtual arrival time) applied to the recorded callback / iteration history, whole-representation comparison of what is handed over, plus wire reactions after the end, where 'after' is the position in the wire log relative to the arrival that ended the observation or to the moment the application was told / said that it is over"
+LEVEL_TEXT = "All permutations of notification sequences up to length 5 over boundary Observe values and arrival gaps (exhaustive per value set) and sampled longer ones are delivered to the real client through both consumer interfaces and both request paths; the delivered sequence, the terminal signal and the reactions after the end are judged against the reference predicate. Block-wise observations (first response and notifications of 1 to 4 blocks, representation replaced during a transfer or not, all ends: terminating response, transport error, a transfer that saw two representations reported as the request's / observation's error, cancellation by the application at five kinds of moments) are sampled per seed plus one deterministic script per (mechanism, request path, consumer); every confirmable notification after a signalled end must be answered with a Reset."
+LEVEL_NOTE = "Trusted: the freshness predicate and the judge in checks/c07.py, harness/vloop.py (time.time is virtual), simnet, refcodec. Exact delivery of every fresh notification is not demanded (the iterator is lossy by design); only subsequence + freshness + 'nothing fresher left undelivered'. Whether a block-wise observation may end with the error of a transfer that saw two representations (ResourceChanged) the statement leaves open: such ends are counted (notification_assembly_failed_end), accepted only when the wire log shows a transfer whose blocks carry different ETags, and from then on judged like every other end. Block counts never decrease along one script and a 4.04 is kept clear of transfers (a non-block-wise answer to a block fetch is C05's subject)."
 RULE = (
-    "one case = one observation: (request path raw/default, consumer callback/iteration, first response with/without Observe, sequence of (Observe value, gap, CON/NON), terminator kind, type (CON/NON) and position, trailing notifications, whether the callback consumer cancels the observation when it is handed the final response). "
-    "Non-trivial = at least one notification was stale/duplicated/reordered or a terminator occurred; distinct = distinct tuples of (path, consumer, value-order pattern, gap classes, terminator, position)"
+    "one case = one observation: (request path raw/default, consumer callback/iteration, first response with/without Observe, sequence of (Observe value, gap, CON/NON), terminator kind, type (CON/NON) and position, trailing notifications, whether the callback consumer cancels the observation when it is handed the final response; for block-wise scripts also block size, blocks and last-block length per version, offset of each version change, network delay / repetition per push, moment of an application-side cancellation). "
+    "Non-trivial = at least one notification was stale/duplicated/reordered or a terminator occurred; distinct = distinct tuples of (path, consumer, value-order pattern, gap classes, terminator, position; block counts, half-millisecond gap classes, cancellation moment, kind of end)"
 )
-ASSUMPTIONS = ["one-way latency 1 ms; datagrams with gap 0 are delivered back-to-back in one event-loop iteration", "OBSERVATION_RESET_TIME is 128 s (default tuning)"]
-REQUIRED_MONITORS = {"failure_before_first_response": 4, "late_consumer": 100, "freshness_order": 800, "nothing_fresher_left": 300, "terminal_signal": 800, "after_end_wire": 200, "time_clause_exercised": 20, "clock_consulted": 1, "con_notification_acknowledged": 300, "cancelled_in_callback": 20}
-EXHAUSTIVE = {"permutations": "all orders of each base value set (length <= 5) for every consumer/path"}
+ASSUMPTIONS = ["one-way latency 1 ms; datagrams with gap 0 are delivered back-to-back in one event-loop iteration", "OBSERVATION_RESET_TIME is 128 s (default tuning)", "block-wise scripts: a newer representation is announced with a fresher Observe value (staleness there comes from delayed / repeated datagrams only); the peer answers block fetches piggy-backed from the current version"]
+_BASE_MONITORS = {"failure_before_first_response": 4, "late_consumer": 100, "freshness_order": 800, "nothing_fresher_left": 300, "terminal_signal": 800, "after_end_wire": 200, "time_clause_exercised": 20, "clock_consulted": 1, "con_notification_acknowledged": 300, "cancelled_in_callback": 20}
+REQUIRED_MONITORS = {
+    "quick": dict(_BASE_MONITORS, blockwise_observation=300, blockwise_body=800, blockwise_first_assembled=80, blockwise_notification_assembled=150, first_response_assembly_failed=12, notification_assembly_failed_end=15, cancelled_before_first_response=50, cancelled_by_application=70, after_signalled_end_wire=120, con_after_signalled_end=400),
+    "thorough": dict(_BASE_MONITORS, blockwise_observation=30000, blockwise_body=80000, blockwise_first_assembled=8000, blockwise_notification_assembled=15000, first_response_assembly_failed=1500, notification_assembly_failed_end=1500, cancelled_before_first_response=5000, cancelled_by_application=7000, after_signalled_end_wire=10000, con_after_signalled_end=40000),
+}
+EXHAUSTIVE = {"permutations": "all orders of each base value set (length <= 5) for every consumer/path", "blockwise_mechanisms": "one deterministic block-wise script per (mechanism: change during the first transfer / during a notification's transfer, cancellation before the first response / during its transfer / after it / between / inside deliveries, undisturbed with each terminator) x request path x consumer"}
 
 VALUE_SETS = [
     [1, 2, 3],
@@ -38,7 +42,7 @@ def fresh(v1, t1, v2, t2):
 
 def plan(tier, seed):
     n = 16
-    return [{"name": "c07-%d" % i, "seed": seed * 1000 + i, "index": i, "of": n, "tier": tier, "extra": {"quick": 40, "thorough": 5000}[tier]} for i in range(n)]
+    return [{"name": "c07-%d" % i, "seed": seed * 1000 + i, "index": i, "of": n, "tier": tier, "extra": {"quick": 40, "thorough": 5000}[tier], "bw": {"quick": 18, "thorough": 2500}[tier]} for i in range(n)]
 
 
 def scripts(r, tier, idx, of):
@@ -114,6 +118,119 @@ def random_script(r):
     }
 
 
+# ---- block-wise representations (RFC 7959 section 2.6 / RFC 7641 section 3.6) -------------------------------------------------
+# The scripted peer holds one resource whose representation changes at every scripted notification ("version"). Block 0
+# of a version is pushed with the Observe option; the later blocks are fetched by the client with ordinary GETs carrying
+# Block2 and are answered from the version current at that moment (ETag per version). One way takes 1 ms: block 0 sent
+# at T is followed by the fetch of block k arriving at the peer at T + 2k ms, so a change within a few ms of a push hits
+# the transfer. Block counts never decrease along a script: a fetch beyond the end of a shorter representation would be
+# answered by a non-block-wise 4.xx, which is the block-wise client's business (C05), not the observation's.
+BW_RACE_GAPS = [0.0, 0.0005, 0.001, 0.0015, 0.002, 0.0025, 0.003, 0.004, 0.005]
+BW_CALM_GAPS = [0.02, 1.0, 1.0, 5.0, 127.9, 128.1]
+BW_FLAVOURS = ["first-race", "first-race", "notif-race", "notif-race", "cancel-before-first", "cancel-before-first", "cancel-later", "free", "free"]
+
+
+def bw_script(r, flavour=None, path=None, consumer=None):
+    flavour = flavour or r.choice(BW_FLAVOURS)
+    szx = r.choice([0, 0, 0, 1, 2])
+    size = 16 << szx
+    n = r.randrange(1, 6)
+    nb = r.choice([1, 2, 2, 3]) if flavour != "first-race" else r.choice([2, 2, 3, 4])
+    tails = [1, size // 2, size - 1, size]
+    base = r.choice([1, 1000, 2**23 - 3, 2**24 - 4])
+    first = {"blocks": nb, "tail": r.choice(tails)}
+    notifs = []
+    v = base
+    race_at = r.randrange(0, n) if flavour == "notif-race" else None
+    for k in range(n):
+        if flavour == "first-race" and k == 0:
+            gap = r.choice(BW_RACE_GAPS)
+        elif race_at is not None and k == race_at + 1:
+            gap = r.choice(BW_RACE_GAPS)
+        elif flavour == "free":
+            gap = r.choice(BW_RACE_GAPS + BW_CALM_GAPS)
+        else:
+            gap = r.choice(BW_CALM_GAPS[:4]) if r.random() < 0.85 else r.choice(BW_CALM_GAPS)
+        nb = min(4, nb + r.choice([0, 0, 0, 1]))
+        if race_at is not None and k == race_at:
+            nb = max(nb, 2)
+        v = (v + 1) % 2**24
+        if gap > 128 and r.random() < 0.4:
+            v = r.randrange(0, 50)  # the counter starts over; fresh by the time clause only
+        notifs.append({"v": v, "gap": gap, "type": r.choice(["NON", "CON"]), "blocks": nb, "tail": r.choice(tails), "delay": r.choice([0.0005, 0.002, 0.005]) if r.random() < 0.15 else 0.0, "again": r.choice([0.0005, 0.003, 0.5]) if r.random() < 0.1 else None})
+    if flavour == "notif-race" and race_at == n - 1:
+        # the change that hits the last scripted transfer is the first trailing notification
+        trail_gap = r.choice(BW_RACE_GAPS)
+    else:
+        trail_gap = 1.0
+    cancel = None
+    if flavour == "cancel-before-first":
+        cancel = r.choice(["before-first-sync", "before-first-inflight", "first-transfer"])
+        if cancel == "first-transfer":
+            first["blocks"] = max(first["blocks"], r.choice([2, 3, 4]))
+    elif flavour == "cancel-later":
+        cancel = r.choice(["after-first", "mid", "mid", "in-callback"])
+    elif flavour == "free" and r.random() < 0.2:
+        cancel = r.choice(["before-first-sync", "before-first-inflight", "first-transfer", "after-first", "mid", "in-callback"])
+    term = r.choice(["none", "none", "none", "final-2.05", "final-4.04", "icmp"]) if cancel is None else r.choice(["none", "none", "none", "final-2.05", "icmp"])
+    if flavour in ("first-race", "notif-race") and r.random() < 0.5:
+        term = "none"
+    consumer = consumer or r.choice(["cb", "cb", "iter", "iter-poll"])
+    if cancel == "in-callback" and consumer != "cb":
+        cancel = "mid"
+    return {
+        "class": "bw",
+        "flavour": flavour,
+        "path": path or r.choice(["raw", "default", "default"]),
+        "consumer": consumer,
+        "poll": r.choice([0.3, 0.7, 5.0]),
+        "first": r.choice([(base - 1) % 2**24] * 6 + [None]) if flavour == "free" else (base - 1) % 2**24,
+        "bw": {"szx": szx, "first": first, "b2_single": r.random() < 0.3, "final": {"blocks": nb if r.random() < 0.5 else 4, "tail": r.choice(tails)}, "t0": 0.0 if flavour == "first-race" or r.random() < 0.2 else 0.5, "trail_gap": trail_gap},
+        "notifs": notifs,
+        "term": term,
+        "term_type": r.choice(["NON", "CON"]),
+        "term_pos": r.randrange(0, n + 1),
+        # (a 4.04 makes the peer answer block fetches with a non-block-wise 4.04 from then on: kept clear of transfers)
+        "term_gap": 1.0 if term == "final-4.04" else r.choice(BW_RACE_GAPS[1:] + [1.0, 1.0]),
+        "cancel": cancel,
+        "cancel_frac": r.random(),
+        "trail": 5,
+    }
+
+
+def bw_special_scripts():
+    """one deterministic script per (mechanism, request path, consumer)"""
+    out = []
+    for path in ("raw", "default"):
+        for consumer in ("cb", "iter", "iter-poll"):
+            mk = lambda **kw: dict({"class": "bw", "path": path, "consumer": consumer, "poll": 0.7, "first": 10, "term": "none", "term_type": "NON", "term_pos": 0, "term_gap": 1.0, "cancel": None, "cancel_frac": 0.5, "trail": 5, "late": None}, **kw)
+            std = lambda **kw: dict({"szx": 0, "first": {"blocks": 2, "tail": 7}, "b2_single": False, "final": {"blocks": 2, "tail": 16}, "t0": 0.5, "trail_gap": 1.0}, **kw)
+            N = lambda v, gap, typ, blocks: {"v": v, "gap": gap, "type": typ, "blocks": blocks, "tail": 9, "delay": 0.0, "again": None}
+            # the representation changes while the later blocks of the first response are fetched
+            for g in (0.0005, 0.0015):
+                out.append(mk(flavour="first-race", bw=std(t0=0.0), notifs=[N(11, g, "NON", 2), N(12, 1.0, "CON", 2)]))
+            out.append(mk(flavour="first-race", bw=std(t0=0.0, first={"blocks": 3, "tail": 16}), notifs=[N(11, 0.003, "CON", 3), N(12, 1.0, "CON", 3)]))
+            # ... while the later blocks of a notification are fetched
+            out.append(mk(flavour="notif-race", bw=std(), notifs=[N(11, 1.0, "NON", 2), N(12, 0.0015, "NON", 2), N(13, 1.0, "CON", 2)]))
+            out.append(mk(flavour="notif-race", bw=std(), notifs=[N(11, 1.0, "CON", 3), N(12, 0.003, "CON", 3)]))
+            out.append(mk(flavour="notif-race", bw=std(first={"blocks": 1, "tail": 12}, trail_gap=0.0005), notifs=[N(11, 1.0, "CON", 2)]))
+            # the application gives the observation up before the first response is in
+            for c in ("before-first-sync", "before-first-inflight"):
+                for fb in (1, 2):
+                    out.append(mk(flavour="cancel-before-first", cancel=c, bw=std(first={"blocks": fb, "tail": 12}), notifs=[N(11, 1.0, "CON", 2), N(12, 1.0, "NON", 2)]))
+            # ... or later
+            out.append(mk(flavour="cancel-later", cancel="after-first", bw=std(), notifs=[N(11, 1.0, "CON", 2), N(12, 1.0, "NON", 2)]))
+            out.append(mk(flavour="cancel-later", cancel="mid", cancel_frac=0.3, bw=std(), notifs=[N(11, 1.0, "CON", 2), N(12, 1.0, "NON", 2), N(13, 1.0, "CON", 2)]))
+            out.append(mk(flavour="cancel-before-first", cancel="first-transfer", cancel_frac=0.0, bw=std(first={"blocks": 3, "tail": 5}), notifs=[N(11, 0.003, "CON", 3), N(12, 1.0, "CON", 3)]))
+            if consumer == "cb":
+                for typ in ("CON", "NON"):
+                    out.append(mk(flavour="cancel-later", cancel="in-callback", cancel_frac=0.4, bw=std(), notifs=[N(11, 1.0, "CON", 2), N(12, 1.0, typ, 2), N(13, 1.0, "CON", 2)]))
+            # undisturbed block-wise observation, ended by the peer or the transport
+            for term in ("none", "final-2.05", "final-4.04", "icmp"):
+                out.append(mk(flavour="free", term=term, term_pos=2, term_type="CON", bw=std(), notifs=[N(11, 1.0, "CON", 2), N(12, 1.0, "NON", 3), N(13, 1.0, "CON", 3)]))
+    return out
+
+
 def run_script(sc, seed, rep, case):
     from harness import scenario, simnet, refcodec as rc, vloop
     import asyncio
@@ -123,7 +240,7 @@ def run_script(sc, seed, rep, case):
     box = {}
     if sc.get("cb_cancels") and (sc["consumer"] != "cb" or not sc["term"].startswith("final")):
         sc["cb_cancels"] = False
-    if sc.get("cb_cancels"):
+    if sc.get("cb_cancels") or sc.get("cancel"):
         sc["late"] = None  # (a second consumer on an observation the first one cancels: not this check's subject)
     if "late" not in sc:
         # a second consumer that attaches later: right after the first response was awaited (the usual pattern with
@@ -139,15 +256,75 @@ def run_script(sc, seed, rep, case):
         state = {"token": None}
         sends = []  # (id, v or None, type, kind)
 
-        def send_notif(peer, ident, v, typ, code=rc.c(2, 5), kind="notif"):
+        bw = sc.get("bw")
+        bodies = {}
+        if bw:
+            size = 16 << bw["szx"]
+
+            def version(ident, blocks, tail, k):
+                # (block counts never decrease in the order the versions really come about: equal timers may fire in either order)
+                blocks = state["blocks"] = max(state.get("blocks", 1), blocks)
+                head = (ident + ":").encode()
+                n = (blocks - 1) * size + tail if blocks > 1 else max(tail, len(head))
+                body = head + b"abcdefghijklmnopqrstuvwxyz"[k % 26 : k % 26 + 1] * (n - len(head))
+                bodies[ident] = body
+                return {"ident": ident, "body": body, "etag": ident.encode(), "gone": False}
+
+        def send_notif(peer, ident, v, typ, code=rc.c(2, 5), kind="notif", ver=None, delay=0.0, again=None):
             opts = ((6, rc.uint_bytes(v)),) if v is not None else ()
+            payload = ident.encode()
+            if ver is not None:
+                # block 0 of a new representation, which is what block fetches are answered from from now on
+                if code == rc.c(4, 4):
+                    bodies[ver[0]] = (ver[0] + ":").encode()
+                    ver = {"ident": ver[0], "body": bodies[ver[0]], "etag": None, "gone": True}  # (block fetches find nothing any more)
+                else:
+                    ver = version(*ver)
+                state["cur"] = ver
+                if code == rc.c(4, 4):
+                    payload = ver["body"][:size]
+                else:
+                    opts += ((4, ver["etag"]),)
+                    if len(ver["body"]) > size:
+                        opts += ((23, rc.block_bytes(0, True, bw["szx"])),)
+                    elif bw["b2_single"]:
+                        opts += ((23, rc.block_bytes(0, False, bw["szx"])),)
+                    payload = ver["body"][:size]
             sends.append({"id": ident, "v": v, "kind": kind, "t": loop.time() + 0.001})
-            peer.send(C, rc.Msg(rc.CON if typ == "CON" else rc.NON, code, peer.next_mid(), state["token"], opts, ident.encode()))
+            msg = rc.Msg(rc.CON if typ == "CON" else rc.NON, code, peer.next_mid(), state["token"], opts, payload)
+            peer.send(C, msg, fate=[0.001 + delay] if delay else None)
+            if again is not None:
+                # the same notification once more (another message: nothing for the message layer to de-duplicate)
+                loop.call_later(again, lambda: peer.send(C, msg._replace(mid=peer.next_mid())))
+
+        def serve_block(peer, src, m):
+            b = rc.opt1(m, 23)
+            if b is None or m.code != 1:
+                return
+            num, _more, szx = rc.block_value(b)
+            cur = state["cur"]
+            typ = rc.ACK if m.type == rc.CON else rc.NON
+            mid = m.mid if m.type == rc.CON else peer.next_mid()
+            chunk = cur["body"][num << (szx + 4) : (num + 1) << (szx + 4)]
+            if cur["gone"]:
+                peer.send(src, rc.Msg(typ, rc.c(4, 4), mid, m.token, (), b"gone:"))
+            elif not chunk:
+                state["out_of_range"] = state.get("out_of_range", 0) + 1
+                peer.send(src, rc.Msg(typ, rc.c(4, 0), mid, m.token, (), b"range:"))
+            else:
+                more = ((num + 1) << (szx + 4)) < len(cur["body"])
+                peer.send(src, rc.Msg(typ, rc.c(2, 5), mid, m.token, ((4, cur["etag"]), (23, rc.block_bytes(num, more, szx))), chunk))
 
         def on_msg(peer, src, m, raw):
+            if m is not None and rc.is_request(m.code) and state["token"] is not None and bw:
+                serve_block(peer, src, m)
+                return
             if m is None or not rc.is_request(m.code) or state["token"] is not None:
                 return
             state["token"] = m.token
+            if bw:
+                bw_registered(peer, src, m)
+                return
             if sc.get("no_first"):
                 # the registration request bounces: a transport error instead of any response
                 net.inject_error(C, P, 111, delay=0.0)
@@ -184,26 +361,93 @@ def run_script(sc, seed, rep, case):
                 loop.call_later(t, send_notif, peer, "trail%d" % j, 5000 + j, "CON" if j % 2 == 0 else "NON", rc.c(2, 5), "trail")
             state["t_total"] = t
 
+        def bw_registered(peer, src, m):
+            k = 0
+            ver = version("first", bw["first"]["blocks"], bw["first"]["tail"], k)
+            state["cur"] = ver
+            opts = ((6, rc.uint_bytes(sc["first"])),) if sc["first"] is not None else ()
+            opts += ((4, ver["etag"]),)
+            if len(ver["body"]) > size:
+                opts += ((23, rc.block_bytes(0, True, bw["szx"])),)
+            elif bw["b2_single"]:
+                opts += ((23, rc.block_bytes(0, False, bw["szx"])),)
+            sends.append({"id": "first", "v": sc["first"], "kind": "first", "t": loop.time() + 0.001})
+            peer.send(src, rc.Msg(rc.ACK, rc.c(2, 5), m.mid, m.token, opts, ver["body"][:size]))
+            t = max(bw["t0"], 0.00025)  # (nothing overtakes the first response: whatever arrived first would be it)
+            items = [("n%d" % i, n) for i, n in enumerate(sc["notifs"])]
+            last_v = sc["notifs"][-1]["v"] if sc["notifs"] else (sc["first"] or 0)
+            for i in range(len(items) + 1):
+                if sc["term"] != "none" and i == sc["term_pos"]:
+                    t += sc["term_gap"]
+                    if sc["term"] == "icmp":
+                        # (not ahead of the first response, which is 1 ms away: that is the no-first class)
+                        net.inject_error(C, P, 111, delay=max(t, 0.00125))
+                        sends.append({"id": "icmp", "v": None, "kind": "icmp", "t": loop.time() + t})
+                    else:
+                        k += 1
+                        loop.call_later(t, send_notif, peer, "final", None, sc.get("term_type", "NON"), rc.c(2, 5) if sc["term"] == "final-2.05" else rc.c(4, 4), "final", ("final", bw["final"]["blocks"], bw["final"]["tail"], k))
+                        if sc["term"] == "final-4.04":
+                            # (from here on block fetches are answered with a non-block-wise 4.04: no transfer may be under
+                            # way, so the 4.04 is a second away from the version before it and strictly ahead of the next)
+                            t += 0.0005
+                if i < len(items):
+                    ident, n = items[i]
+                    t += n["gap"]
+                    k += 1
+                    loop.call_later(t, send_notif, peer, ident, n["v"], n["type"], rc.c(2, 5), "notif", (ident, n["blocks"], n["tail"], k), n["delay"], n["again"])
+            for j in range(sc["trail"]):
+                t += 1.0 if j else bw["trail_gap"]
+                k += 1
+                # (a representation that is newer is announced as fresher: staleness in these scripts is the network's doing)
+                loop.call_later(t, send_notif, peer, "trail%d" % j, (last_v + 1 + j) % 2**24, "CON" if j % 2 == 0 else "NON", rc.c(2, 5), "trail", ("trail%d" % j, 1, 16, k))
+            state["t_total"] = t
+
         peer = simnet.RawPeer(net, "10.0.0.1", 5683, on_msg)
         cli = await simnet.make_context(net, "10.0.0.2", 40001, None, server=False)
         rq = cli.request(aiocoap.Message(code=aiocoap.GET, uri="coap://10.0.0.1/obs", observe=0), handle_blockwise=(sc["path"] == "default"))
         delivered = []  # (t, id)
         terminal = []  # (t, repr, type)
+        deliv_x = []  # per delivery: (position in the wire log, whole payload)
+        term_seq = []  # per terminal signal: position in the wire log
+        cancel = {}
+        got_first = []
+
+        def deliver(m):
+            p = bytes(m.payload)
+            delivered.append((loop.time(), p.decode().split(":")[0], m.opt.observe))
+            deliv_x.append((len(net.log), p))
+
+        def end(name, e):
+            terminal.append((loop.time(), name, e))
+            term_seq.append(len(net.log))
+
+        def app_cancel(when):
+            # an application that loses interest (RFC 7641 section 3.6: it simply forgets the observation)
+            if rq.observation.cancelled:
+                return  # already over
+            cancel.update(when=when, t=loop.time(), seq=len(net.log), ndeliv=len(delivered), before_first=not got_first)
+            rq.observation.cancel()
+
+        eager_it = None
+        if sc.get("cancel") and sc["consumer"] != "cb":
+            eager_it = rq.observation.__aiter__()  # (attached before the cancellation, like the callbacks below)
         if sc["consumer"] == "cb":
             def on_notification(m):
-                delivered.append((loop.time(), bytes(m.payload).decode(), m.opt.observe))
+                deliver(m)
+                if sc.get("cancel") == "in-callback" and m.opt.observe is not None and len(delivered) > sc["cancel_frac"] * len(sc["notifs"]):
+                    app_cancel("in-callback")
                 if sc.get("cb_cancels") and m.opt.observe is None and delivered[-1][1] == "final":
                     # an application that is done with the observation once it has seen the final response
                     rq.observation.cancel()
 
             rq.observation.register_callback(on_notification)
-            rq.observation.register_errback(lambda e: terminal.append((loop.time(), type(e).__name__, e)))
+            rq.observation.register_errback(lambda e: end(type(e).__name__, e))
             consumer_task = None
         elif sc["consumer"] == "iter-poll":
 
             async def consume():
                 # an application that polls the iterator with a time-out of its own
-                it = rq.observation.__aiter__()
+                it = eager_it or rq.observation.__aiter__()
                 spurious = 0
                 while True:
                     try:
@@ -211,56 +455,75 @@ def run_script(sc, seed, rep, case):
                     except asyncio.TimeoutError:
                         continue
                     except StopAsyncIteration:
-                        terminal.append((loop.time(), "StopAsyncIteration", None))
+                        end("StopAsyncIteration", None)
                         return
                     except asyncio.CancelledError:
                         if asyncio.current_task().cancelling():
                             raise
                         spurious += 1  # nobody cancelled this task
                         if spurious > 50:
-                            terminal.append((loop.time(), "spurious-CancelledError", None))
+                            end("spurious-CancelledError", None)
                             return
                         await asyncio.sleep(0.01)
                         continue
                     except Exception as e:
-                        terminal.append((loop.time(), type(e).__name__, e))
+                        end(type(e).__name__, e)
                         return
-                    delivered.append((loop.time(), bytes(m.payload).decode(), m.opt.observe))
+                    deliver(m)
 
             consumer_task = asyncio.ensure_future(consume())
         else:
 
             async def consume():
                 try:
-                    async for m in rq.observation:
-                        delivered.append((loop.time(), bytes(m.payload).decode(), m.opt.observe))
-                    terminal.append((loop.time(), "StopAsyncIteration", None))
+                    if eager_it is not None:
+                        while True:
+                            try:
+                                m = await eager_it.__anext__()
+                            except StopAsyncIteration:
+                                break
+                            deliver(m)
+                    else:
+                        async for m in rq.observation:
+                            deliver(m)
+                    end("StopAsyncIteration", None)
                 except asyncio.CancelledError:
                     raise
                 except Exception as e:
-                    terminal.append((loop.time(), type(e).__name__, e))
+                    end(type(e).__name__, e)
 
             consumer_task = asyncio.ensure_future(consume())
+        if sc.get("cancel") == "before-first-sync":
+            app_cancel(sc["cancel"])
+        elif sc.get("cancel") == "before-first-inflight":
+            loop.call_later(0.0005, app_cancel, sc["cancel"])  # the request is on the wire, the response is not yet
+        elif sc.get("cancel") == "first-transfer":
+            loop.call_later(0.0025 + 0.002 * int(sc["cancel_frac"] * 3), app_cancel, sc["cancel"])  # block 0 of the response is in, later ones may be under way
         first = None
         try:
             resp = await asyncio.wait_for(asyncio.shield(rq.response), 30)
-            first = ("response", bytes(resp.payload).decode(), resp.opt.observe)
+            first = ("response", bytes(resp.payload).decode().split(":")[0], resp.opt.observe)
+            first_x = (len(net.log), bytes(resp.payload))
         except Exception as e:
             first = ("exception", type(e).__name__, e)
+            first_x = (len(net.log), None)
+        got_first.append(True)
+        if sc.get("cancel") == "after-first":
+            app_cancel(sc["cancel"])
         late_delivered, late_terminal, late_task, late_attached = [], [], [None], []
 
         def attach_late():
             late_attached.append(loop.time())
             try:
                 if sc["late"][1] == "cb":
-                    rq.observation.register_callback(lambda m: late_delivered.append((loop.time(), bytes(m.payload).decode(), m.opt.observe)))
+                    rq.observation.register_callback(lambda m: late_delivered.append((loop.time(), bytes(m.payload).decode().split(":")[0], m.opt.observe)))
                     rq.observation.register_errback(lambda e: late_terminal.append((loop.time(), type(e).__name__, e)))
                 else:
 
                     async def consume_late():
                         try:
                             async for m in rq.observation:
-                                late_delivered.append((loop.time(), bytes(m.payload).decode(), m.opt.observe))
+                                late_delivered.append((loop.time(), bytes(m.payload).decode().split(":")[0], m.opt.observe))
                             late_terminal.append((loop.time(), "StopAsyncIteration", None))
                         except asyncio.CancelledError:
                             raise
@@ -272,6 +535,8 @@ def run_script(sc, seed, rep, case):
                 late_terminal.append((loop.time(), "attach:" + type(e).__name__, e))
 
         total = state.get("t_total", 1.0)
+        if sc.get("cancel") == "mid":
+            loop.call_later(sc["cancel_frac"] * (total + 1.0), app_cancel, "mid")
         if sc["late"] is not None:
             if sc["late"][0] == "after-response":
                 attach_late()
@@ -281,7 +546,7 @@ def run_script(sc, seed, rep, case):
                 loop.call_later(total + 10.0, attach_late)
         await asyncio.sleep(total + 50.0)
         calls_before = vloop.time_calls
-        box.update(net=net, C=C, P=P, sends=sends, delivered=list(delivered), terminal=list(terminal), first=first, token=state["token"], late_delivered=list(late_delivered), late_terminal=list(late_terminal), late_attached=list(late_attached))
+        box.update(net=net, C=C, P=P, sends=sends, delivered=list(delivered), terminal=list(terminal), first=first, token=state["token"], late_delivered=list(late_delivered), late_terminal=list(late_terminal), late_attached=list(late_attached), deliv_x=list(deliv_x), term_seq=list(term_seq), first_x=first_x, cancel=dict(cancel), bodies=bodies, out_of_range=state.get("out_of_range", 0))
         if consumer_task is not None and not consumer_task.done():
             consumer_task.cancel()
         if late_task[0] is not None and not late_task[0].done():
@@ -314,10 +579,11 @@ def judge(sc, box, res, rep, case):
     arrivals = []
     for e in net.log:
         if e.kind == "deliver" and e.dst == C and e.msg is not None and rc.is_response(e.msg.code) and e.msg.token == box["token"]:
-            ident = e.msg.payload.decode()
+            ident = e.msg.payload.decode().split(":")[0]
             o = rc.opt1(e.msg, 6)
+            b2 = rc.opt1(e.msg, 23)
             kind = "first" if ident == "first" else "final" if ident == "final" else "trail" if ident.startswith("trail") else "notif"
-            arrivals.append({"id": ident, "v": rc.uint_value(o) if o is not None else None, "kind": kind, "t": e.t, "seq": e.seq})
+            arrivals.append({"id": ident, "v": rc.uint_value(o) if o is not None else None, "kind": kind, "t": e.t, "seq": e.seq, "etag": rc.opt1(e.msg, 4), "more": b2 is not None and rc.block_value(b2)[1]})
         elif e.kind == "error" and e.dst == C:
             arrivals.append({"id": "icmp", "v": None, "kind": "icmp", "t": e.t, "seq": e.seq})
     box["sends"] = arrivals
@@ -334,7 +600,89 @@ def judge(sc, box, res, rep, case):
             if a["kind"] == "icmp":
                 end_idx, end_kind = i, "icmp"
                 break
-    live = arrivals if end_idx is None else arrivals[: end_idx + 1]
+    # ---- block-wise representations: ends that are not an arrival on the observation's token ----
+    # (positions in the wire log, not times, say what came before and after)
+    from aiocoap import error as _error
+
+    bw = sc.get("bw")
+    end_seq = arrivals[end_idx]["seq"] if end_idx is not None and end_idx < len(arrivals) else float("inf")
+    sig_end = None  # (kind, everything from this wire-log position on came after the end, nothing is demanded from this one on)
+    assembly_overtakes_end = False
+    first_failed = False
+    cancel = box.get("cancel") or {}
+    is_assembly_error = lambda e: isinstance(e, _error.Error) and not isinstance(e, (_error.NetworkError, _error.ObservationCancelled, _error.NotObservable, _error.LibraryShutdown))
+    if bw:
+        rep.monitor("blockwise_observation")
+        if box["out_of_range"]:
+            rep.inconc("harness: a block beyond the end of the representation was requested (block counts were meant never to decrease)")
+            return
+        fetches = [e for e in net.log if e.kind == "send" and e.src == C and e.msg is not None and e.msg.code == 1 and rc.opt1(e.msg, 23) is not None and rc.block_value(rc.opt1(e.msg, 23))[0] > 0]
+        answers = [e for e in net.log if e.kind == "deliver" and e.dst == C and e.msg is not None and rc.is_response(e.msg.code) and e.msg.token != box["token"]]
+        if sc["path"] == "raw" and fetches:
+            rep.violation("blockwise/raw-request-fetched-blocks", "a request made with handle_blockwise=False went on to fetch further blocks", wit(fetch=fetches[0].brief()), case)
+            return
+
+        def transfer_before(seq, candidates):
+            """the block transfer that was under way just before wire position `seq`: did it see blocks of different
+            representations (ETag)? -> (seq of its last answer, True/False), or None if there was none. `candidates`
+            are the arrivals whose block 0 it may have started from."""
+            fs = [f for f in fetches if f.seq < seq]
+            starts = [f for f in fs if rc.block_value(rc.opt1(f.msg, 23))[0] == 1]
+            if not starts:
+                return None
+            chain = [f for f in fs if f.seq >= starts[-1].seq]
+            toks = {f.msg.token for f in chain}
+            ans = [a for a in answers if a.seq < seq and a.seq > starts[-1].seq and a.msg.token in toks]
+            if not ans:
+                return None
+            tags = {rc.opt1(a.msg, 4) if a.msg.code == rc.c(2, 5) else a.msg.code for a in ans}
+            heads = {c["etag"] for c in candidates if c.get("more") and c["seq"] < starts[-1].seq}
+            return ans[-1].seq, len(tags) > 1 or any(h not in tags for h in heads)
+
+        if cancel:
+            rep.monitor("cancelled_by_application")
+            if cancel["before_first"]:
+                rep.monitor("cancelled_before_first_response")
+        # the first response cannot be put together
+        if box["first"][0] == "exception" and sc["path"] == "default" and is_assembly_error(box["first"][2]):
+            tr = transfer_before(box["first_x"][0], [a for a in arrivals if a["kind"] == "first"])
+            if tr is not None and tr[1]:
+                first_failed = True
+                rep.monitor("first_response_assembly_failed")
+                when = min([box["first_x"][0]] + box["term_seq"][:1])
+                if cancel and cancel["seq"] <= tr[0]:
+                    # (given up before that already; what keeps the observation on the wire is the failed transfer)
+                    sig_end = ("first-response-assembly-failed", cancel["seq"] - 0.5, cancel["seq"] - 0.5)
+                elif when - 0.5 < end_seq:
+                    sig_end = ("first-response-assembly-failed", when - 0.5, tr[0])
+                elif end_kind in ("final", "icmp"):
+                    assembly_overtakes_end = True  # (the peer or the transport had ended it already, the application hears of the failed transfer instead)
+                    rep.count("assembly_failure_instead_of_" + str(end_kind))
+        # a notification cannot be put together, and the application is told that as the observation's end
+        elif box["terminal"] and sc["path"] == "default" and is_assembly_error(box["terminal"][0][2]) and not (cancel and cancel["seq"] <= box["term_seq"][0]):
+            last_seq = -1
+            for (_t, ident, _v) in box["delivered"]:
+                last_seq = max([last_seq] + [a["seq"] for a in arrivals if a["id"] == ident][:1])
+            tr = transfer_before(box["term_seq"][0], [a for a in arrivals if a["seq"] > last_seq and a["kind"] != "first"])
+            if tr is not None and tr[1]:
+                # whether that is a legitimate end of a block-wise observation the statement leaves open: counted
+                rep.monitor("notification_assembly_failed_end")
+                rep.count("end_by_" + box["terminal"][0][1])
+                if box["term_seq"][0] - 0.5 < end_seq:
+                    sig_end = ("notification-assembly-failed", box["term_seq"][0] - 0.5, tr[0])
+                else:
+                    assembly_overtakes_end = True  # (the peer had ended it already, the application hears of the failed transfer instead)
+                    rep.count("assembly_failure_instead_of_" + str(end_kind))
+        if sig_end is None and not assembly_overtakes_end and cancel and cancel["seq"] - 0.5 < end_seq:
+            sig_end = ("cancelled-before-first-response" if cancel["before_first"] else "cancelled-by-application", cancel["seq"] - 0.5, cancel["seq"] - 0.5)
+        if sig_end is not None:
+            end_idx, end_kind, end_seq = None, sig_end[0], sig_end[1]
+    live = [a for a in arrivals if a["seq"] <= end_seq or a["kind"] == "first"]  # (the response to the request is the request's, whatever became of the observation)
+    icmp_seq = [a["seq"] for a in arrivals if a["kind"] == "icmp"]
+    if bw and sc["path"] == "default" and icmp_seq and box["first"][0] == "exception" and isinstance(box["first"][2], _error.NetworkError) and arrivals[0]["kind"] == "first" and arrivals[0]["more"] and icmp_seq[0] < box["first_x"][0]:
+        # the transport failed while the later blocks of the first response were being fetched: the request fails with it
+        rep.monitor("transport_failure_during_first_transfer")
+        first_failed = True
     if sc.get("no_first"):
         # a transport failure before any response: the request fails with a network error, and so does the
         # observation (exactly once); nothing is delivered
@@ -353,11 +701,28 @@ def judge(sc, box, res, rep, case):
             rep.violation("no-first/wrong-terminal-kind/%s-%s" % (sc["path"], sc["consumer"]), "transport failure before the first response: the observation ended with %s instead of a network error" % term[0][1], wit(), case)
         return
     # ---- first response ----
-    if box["first"][0] != "response" or box["first"][1] != "first":
+    if first_failed:
+        pass  # (the transfer of the first response saw two representations: the request fails, see above)
+    elif box["first"][0] != "response" or box["first"][1] != "first":
         rep.violation("first-response-not-delivered", "the request's response future did not yield the first response", wit(), case)
         return
+    if bw:
+        # what is handed over is the representation the notification announced: all of it where the library was asked
+        # to put block-wise transfers together, its first block otherwise
+        size = 16 << bw["szx"]
+        handed = ([("first", box["first_x"][1])] if not first_failed else []) + [(i, x[1]) for (_, i, _), x in zip(box["delivered"], box["deliv_x"])]
+        for ident, payload in handed:
+            whole = box["bodies"].get(ident)
+            if whole is None:
+                continue  # (not something that arrived: reported below)
+            rep.monitor("blockwise_body")
+            if len(whole) > size and sc["path"] == "default":
+                rep.monitor("blockwise_first_assembled" if ident == "first" else "blockwise_notification_assembled")
+            if payload != (whole if sc["path"] == "default" else whole[:size]):
+                rep.violation("blockwise/handed-over-body-wrong/" + sc["path"], "what was handed to the application is not the representation the notification belongs to", wit(item=ident, got_len=len(payload), want_len=len(whole) if sc["path"] == "default" else min(size, len(whole))), case)
+                return
     # ---- delivered sequence (first response + callbacks) ----
-    D = [("first", sc["first"])] + [(i, v) for _, i, v in box["delivered"]]
+    D = ([("first", sc["first"])] if not first_failed else []) + [(i, v) for _, i, v in box["delivered"]]
     ids = [a["id"] for a in live if a["kind"] != "icmp"]
     rep.monitor("freshness_order")
     # subsequence of arrivals (before the end)
@@ -430,6 +795,26 @@ def judge(sc, box, res, rep, case):
         if len(term) > 1:
             rep.violation("terminal-signals-%d/%s/%s" % (len(term), end_kind, key_sfx), "the observation's end was signalled %d times" % len(term), wit(), case)
             return
+    elif cancel and (not box["term_seq"] or cancel["seq"] <= box["term_seq"][0]):
+        # the application gave the observation up (possibly after something had ended it on the wire, but before it
+        # was told): it may or may not be told once more that it is over, and a
+        # callback consumer is handed nothing from then on (an iterating one may still pick up what was waiting
+        # for it: that it arrived before the end is judged above)
+        if len(term) > 1:
+            rep.violation("terminal-signals-%d/%s/%s" % (len(term), end_kind, key_sfx), "the observation's end was signalled %d times" % len(term), wit(), case)
+            return
+        if sc["consumer"] == "cb" and len(box["delivered"]) > cancel["ndeliv"]:
+            rep.violation("delivered-after-cancellation/" + sc["path"], "a notification was handed to a callback after the application had cancelled the observation", wit(cancelled_at=cancel["t"]), case)
+            return
+    elif sig_end is not None or assembly_overtakes_end:
+        # a block-wise transfer saw two representations and the application was told that as the observation's error:
+        # once, and nothing after it
+        if len(term) != 1:
+            rep.violation("terminal-signals-%d/%s/%s" % (len(term), end_kind, key_sfx), "the observation's end was signalled %d times instead of exactly once" % len(term), wit(), case)
+            return
+        if any(t > term[0][0] + 1e-9 for t, _, _ in box["delivered"]) or any(x[0] > box["term_seq"][0] for x in box["deliv_x"]):
+            rep.violation("delivered-after-terminal-signal", "a notification was delivered after the end had been signalled", wit(), case)
+            return
     else:
         if len(term) != 1:
             rep.violation("terminal-signals-%d/%s/%s" % (len(term), end_kind, key_sfx), "the observation's end was signalled %d times instead of exactly once" % len(term), wit(), case)
@@ -448,10 +833,17 @@ def judge(sc, box, res, rep, case):
             return
         if end_kind == "final":
             # the final response is delivered, then the cancellation
-            if not D or D[-1][0] != "final":
+            final_disturbed = False
+            if bw and sc["path"] == "default" and arrivals[end_idx]["more"]:
+                # a final response that is block-wise itself, and whose representation was replaced before its later
+                # blocks were in: there is no putting it together
+                final_disturbed = any(rc.opt1(a.msg, 4) != arrivals[end_idx]["etag"] for a in answers if a.seq > arrivals[end_idx]["seq"])
+                if final_disturbed:
+                    rep.count("final_response_transfer_disturbed")
+            if (not D or D[-1][0] != "final") and not final_disturbed:
                 rep.violation("final-response-not-delivered/" + key_sfx, "a response without Observe option ended the observation, but it was not handed over before the cancellation signal", wit(), case)
                 return
-        if end_kind == "not-observable" and len(D) > 1:
+        if end_kind == "not-observable" and len(D) > (0 if first_failed else 1):
             rep.violation("delivery-on-unobservable", "notifications were delivered although the first response carried no Observe option", wit(), case)
             return
         # nothing delivered after the terminal signal
@@ -474,7 +866,7 @@ def judge(sc, box, res, rep, case):
                 rep.violation("late-consumer/terminal-signals-%d/%s/%s" % (len(lterm), end_kind, lkey), "the observation's end was signalled %d times instead of exactly once to a consumer that attached later" % len(lterm), lwit(), case)
                 return
             n = lterm[0][1]
-            want = {"not-observable": ("NotObservable", "StopAsyncIteration"), "final": ("ObservationCancelled", "StopAsyncIteration"), "icmp": ("NetworkError",)}[end_kind]
+            want = {"not-observable": ("NotObservable", "StopAsyncIteration"), "final": ("ObservationCancelled", "StopAsyncIteration"), "icmp": ("NetworkError",)}.get(end_kind, ("the block-wise transfer's error",))
             ok = n in want
             if end_kind == "icmp":
                 from aiocoap import error
@@ -482,6 +874,8 @@ def judge(sc, box, res, rep, case):
                 ok = isinstance(lterm[0][2], error.NetworkError)
             if sc["late"][1] == "cb" and n == "StopAsyncIteration":
                 ok = False
+            if sig_end is not None or assembly_overtakes_end:
+                ok = is_assembly_error(lterm[0][2])
             if not ok:
                 rep.violation("late-consumer/wrong-terminal-kind/%s/%s" % (end_kind, lkey), "a consumer that attached later saw the observation end with %s; expected %s" % (n, "/".join(want)), lwit(), case)
                 return
@@ -499,6 +893,9 @@ def judge(sc, box, res, rep, case):
                 return
     # ---- wire: confirmable notifications (the final response included) up to the end are acknowledged ----
     seq_lim = arrivals[end_idx]["seq"] if end_idx is not None else float("inf")  # (wire-log position: ties at one instant)
+    if sig_end is not None:
+        # (between the block that made the transfer fail and the application hearing of it, either answer is fine)
+        seq_lim = min(sig_end[1], sig_end[2] - 0.5)
     for e in net.log:
         if e.kind == "deliver" and e.dst == C and e.msg is not None and e.msg.type == rc.CON and rc.is_response(e.msg.code) and e.msg.token == box["token"] and e.seq <= seq_lim:
             rep.monitor("con_notification_acknowledged")
@@ -507,7 +904,7 @@ def judge(sc, box, res, rep, case):
                 rep.violation("con-notification-not-acknowledged/%s" % ("final" if not rc.opt(e.msg, 6) else "notification"), "a confirmable response belonging to the live observation was not answered with exactly one empty ACK", wit(event=e.brief(), emitted=[s_.brief() for s_ in out]), case)
                 return
     # ---- wire: notifications after the end are rejected like unknown responses ----
-    if end_idx is not None:
+    if end_idx is not None and sig_end is None:
         rep.monitor("after_end_wire")
         t_end_arr = arrivals[end_idx]["t"]
         for e in net.log:
@@ -520,6 +917,34 @@ def judge(sc, box, res, rep, case):
                 elif out:
                     rep.violation("late-non-notification-answered", "a non-confirmable notification after the end produced output", wit(event=e.brief()), case)
                     return
+    if sig_end is not None:
+        # the same after an end that is not an arrival on the token: the application was told (or said itself) that
+        # the observation is over at wire-log position sig_end[1]; whatever comes on the token from then on is unknown
+        rep.monitor("after_signalled_end_wire")
+        after = [a["seq"] for a in arrivals if a["seq"] > sig_end[1] and a["kind"] in ("notif", "trail", "final")]
+        cons = []
+        for e in net.log:
+            if e.kind == "deliver" and e.dst == C and e.msg is not None and rc.is_response(e.msg.code) and e.msg.token == box["token"] and e.seq > sig_end[1]:
+                out = [s for s in net.log if s.kind == "send" and s.cause == e.seq]
+                if e.msg.type == rc.CON:
+                    cons.append((e, out, len(out) == 1 and out[0].msg is not None and out[0].msg.type == rc.RST and out[0].msg.mid == e.msg.mid))
+                elif e.msg.type == rc.NON and out:
+                    rep.violation("late-non-notification-answered", "a non-confirmable notification after the end produced output", wit(event=e.brief()), case)
+                    return
+        rep.monitor("con_after_signalled_end", len(cons))
+        bad = [c for c in cons if not c[2]]
+        if bad:
+            # does the observation go on on the wire, or is it only dropped one notification (of either type) late?
+            for_good = any(c[0].seq != after[0] for c in bad)
+            e, out, _ = bad[-1] if for_good else bad[0]
+            rep.violation(
+                ("observation-outlives-end/%s/%s" if for_good else "cancellation-takes-effect-late/%s/%s") % (end_kind, sc["path"]),
+                "the application was told (or said itself) that the observation is over, but "
+                + ("confirmable notifications went on being accepted after that, not only the next one: the observation lives on in the token manager" if for_good else "the next notification, a confirmable one, was still accepted, not answered with a Reset (only the one after it was)"),
+                wit(event=e.brief(), emitted=[s.brief() for s in out], answers_after_end=["RST" if c[2] else "/".join("CON NON ACK RST".split()[s.msg.type] if s.msg is not None else "?" for s in c[1]) or "nothing" for c in cons]),
+                case,
+            )
+            return
     if res.loop_exceptions:
         rep.violation("loop-exception/" + str(res.loop_exceptions[0].get("exc_type")), "an exception reached the event loop", wit(loop=res.loop_exceptions[:2]), case)
     if res.unraisable:
@@ -527,8 +952,10 @@ def judge(sc, box, res, rep, case):
     vals = [n["v"] for n in sc["notifs"]]
     order = tuple(sorted(range(len(vals)), key=lambda i: vals[i]))
     sig = (sc["path"], sc["consumer"], sc["first"] is None, order, tuple(min(int(n["gap"]), 200) for n in sc["notifs"]), tuple(v >= 2**23 for v in vals), sc["term"], sc["term_pos"], sc["term_gap"] == 0.0)
+    if bw:
+        sig += (bw["first"]["blocks"], tuple(n["blocks"] for n in sc["notifs"]), tuple(min(int(n["gap"] * 2000), 20) for n in sc["notifs"]), sc.get("cancel"), end_kind, bw["t0"] == 0.0)
     stale = len(D) - 1 < len([a for a in live if a["kind"] == "notif"])
-    rep.case(sig, nontrivial=stale or end_kind is not None)
+    rep.case(sig, nontrivial=stale or end_kind is not None or bool(bw))
 
 
 def info_kind(live, ident):
@@ -567,3 +994,20 @@ def run_shard(shard, rep, only=None):
         if only is not None and only != case:
             continue
         run_script(sc, shard["seed"] * 104729 + k, rep, case)
+    # block-wise representations (a generator of its own: the scripts above stay what they were for every seed)
+    rb = random.Random(shard["seed"] * 7919 + 17)
+    for j, sc in enumerate(bw_special_scripts()):
+        if j % shard["of"] != shard["index"] % 16:
+            continue
+        case = ["bw-special", j]
+        if only is not None and only != case:
+            continue
+        run_script(dict(sc), shard["seed"] * 37 + j, rep, case)
+    for k in range(shard.get("bw", 0)):
+        sc = bw_script(rb)
+        case = ["bw", k]
+        if only is not None and only != case:
+            continue
+        run_script(sc, shard["seed"] * 15485863 + k, rep, case)
+        if k == 0 and shard["index"] == 0:
+            rep.sample({"class": "block-wise-script", "script": sc})
